@@ -345,13 +345,55 @@ func (r *runner) dumpModel() string {
 	return sb.String()
 }
 
-func (r *runner) create(node int, js string) (string, error) {
+func (r *runner) create(node int, js string, via int) (string, error) {
 	col := r.col(node)
 	doc, err := client.NewDocFromJSON([]byte(js), col.Definition())
 	if err != nil {
 		hx.Harnessf("generator produced a document the input path rejects: %s: %v", js, err)
 	}
+	switch via {
+	case 1:
+		r.label("route:CreateMany")
+		return doc.ID().String(), col.CreateMany(r.node(node).Ctx, []*client.Document{doc})
+	case 2:
+		r.label("route:Save(create)")
+		return doc.ID().String(), col.Save(r.node(node).Ctx, doc)
+	}
 	return doc.ID().String(), col.Create(r.node(node).Ctx, doc)
+}
+
+// updateVia: the alternative update routes (live documents only).
+func (r *runner) updateVia(node int, id, patch string, via int) error {
+	col := r.col(node)
+	ctx := r.node(node).Ctx
+	if via == 2 {
+		r.label("route:UpdateWithFilter")
+		_, err := col.UpdateWithFilter(ctx, fmt.Sprintf(`{_docID: {_eq: %q}}`, id), patch)
+		return err
+	}
+	did, err := client.NewDocIDFromString(id)
+	if err != nil {
+		hx.Harnessf("doc id %q: %v", id, err)
+	}
+	doc, err := col.Get(ctx, did, false)
+	if err != nil {
+		return err
+	}
+	if err := doc.SetWithJSON([]byte(patch)); err != nil {
+		hx.Harnessf("generator produced a patch the input path rejects: %s: %v", patch, err)
+	}
+	r.label("route:Save(update)")
+	return col.Save(ctx, doc)
+}
+
+// deleteVia: Collection.DeleteWithFilter on the document id (live documents only).
+func (r *runner) deleteVia(node int, id string) error {
+	r.label("route:DeleteWithFilter")
+	res, err := r.col(node).DeleteWithFilter(r.node(node).Ctx, fmt.Sprintf(`{_docID: {_eq: %q}}`, id))
+	if err == nil && (res == nil || res.Count != 1) {
+		return fmt.Errorf("DeleteWithFilter on the id of a live document deleted %v documents", res)
+	}
+	return err
 }
 
 func (r *runner) update(node int, id, patch string) error {
@@ -556,7 +598,7 @@ func (r *runner) history() *hx.Failure {
 			var id string
 			ok, f := r.applyWrite("create "+js, vals, "", true, func(n int) error {
 				var err error
-				id, err = r.create(n, js)
+				id, err = r.create(n, js, op.Via)
 				return err
 			})
 			if f != nil {
@@ -581,6 +623,9 @@ func (r *runner) history() *hx.Failure {
 			ok, f := r.applyWrite(fmt.Sprintf("%s of k=%d (%s, deleted=%v, was %s) with %s", route, d.K, d.ID, d.Deleted, hx.Canon(d.Vals), patch), nv, d.ID, !d.Deleted, func(n int) error {
 				if op.Kind == "pupdate" {
 					return r.partialUpdate(n, d.ID, patch)
+				}
+				if op.Via > 0 && !d.Deleted {
+					return r.updateVia(n, d.ID, patch, op.Via)
 				}
 				return r.update(n, d.ID, patch)
 			})
@@ -620,6 +665,9 @@ func (r *runner) history() *hx.Failure {
 				what = "delete of deleted "
 			}
 			ok, f := r.applyWrite(fmt.Sprintf("%sk=%d (%s)", what, d.K, d.ID), d.Vals, d.ID, false, func(n int) error {
+				if op.Via > 0 && !d.Deleted {
+					return r.deleteVia(n, d.ID)
+				}
 				return r.delete(n, d.ID)
 			})
 			if f != nil {
@@ -664,7 +712,7 @@ func (r *runner) history() *hx.Failure {
 			var id string
 			err := guard(func() error {
 				var err error
-				id, err = r.create(nodeR, js)
+				id, err = r.create(nodeR, js, 0)
 				return err
 			})
 			r.cl.Collect(nodeR)
